@@ -46,7 +46,7 @@ TABLE = {
         "theorems": ["AcqVerif.C08.camera_stopped_once_per_start", "AcqVerif.C08.camera_started_only_when_armed", "AcqVerif.C08.camera_used_only_while_running",
                      "AcqVerif.C08.running_device_has_a_worker", "AcqVerif.C08.running_only_while_workers_alive", "AcqVerif.C08.not_running_after_workers_exit",
                      "AcqVerif.C08.unconfigured_stream_untouched", "AcqVerif.C08.start_while_running_refused"],
-        "classes": ["api", "switchfail", "restart", "two", "camfault", "reconf", "stofault", "stopawait", "twofail", "drop2"],
+        "classes": ["api", "switchfail", "restart", "two", "camfault", "reconf", "stofault", "stopawait", "twofail", "drop2", "setfail", "avgf32poll"],
         "kinds": ("device-", "state-", "still-running-after", "never-returns", "CRASH"),
         "what": "every device is opened/closed once, started only when armed, stopped once per start, used only between start and stop; "
                 "Running reported only while workers are alive",
@@ -57,7 +57,7 @@ TABLE = {
                      "AcqVerif.C09.no_frame_call_after_failed_frame_call", "AcqVerif.C09.failed_camera_is_stopped", "AcqVerif.C09.one_stop_per_start",
                      "AcqVerif.C09.not_running_once_workers_exited", "AcqVerif.C09.returned_means_clean",
                      "AcqVerif.C09.faulty_run_stores_a_prefix", "AcqVerif.C09.acquisition_after_a_failure_is_complete"],
-        "classes": ["stofault", "camfault", "avgfault", "trigfault", "twofail", "avgf32"],
+        "classes": ["stofault", "camfault", "avgfault", "trigfault", "twofail", "avgf32", "stopartial"],
         "kinds": ("append-after-failed", "get_frame-after-failed", "still-running-after", "state-", "never-returns", "stored-", "camera-delivered",
                   "device-", "CRASH"),
         "what": "after a scripted camera/storage failure at any call index nothing more reaches the device, the camera is stopped, stop/abort return, "
@@ -98,6 +98,8 @@ def run(ctx):
         from . import c08m2 as m2
         parts.append((m2.MODULE, m2.THEOREMS, [m2.DRIVER]))
     prove_all(ctx, parts)
+    from . import platconf
+    platconf.run(ctx)        # the real platform.c keeps the contract detsched stands for (real threads)
     ex = rtx.Explorer(ctx)
     if not ex.build():
         return
